@@ -218,6 +218,14 @@ class Run(object):
                 RANK_EPOCH[0] += 1          # the table the key function reads has changed since the last sort
             expect(outcome(lambda: s.sort(**kw)), ('ok', None), 'result[sort]')
             L.sort(**kw)
+            if op[1] == 'rank':
+                # ... and once more straight away with the very same arguments: nothing was added or removed in
+                # between, only the table behind the key function moved on (a plain list re-sorts)
+                RANK_EPOCH[0] += 1
+                expect(outcome(lambda: s.sort(**kw)), ('ok', None), 'result[sort]')
+                L.sort(**kw)
+                if st is not None:
+                    st.count('sorts_repeated_with_changed_key_results')
         elif name == 'sort-fails':
             # the key gives one item a value that cannot be compared with the others: the sort raises TypeError
             # part-way (a plain list is then left as some permutation of itself); every read must still agree
